@@ -46,7 +46,8 @@ func Key(t pub.Tangible) string {
 		if m := labelRe.FindString(name); m != "" && strings.HasPrefix(m, "P") {
 			return "post:" + m
 		}
-		return "post:?" + name
+		_ = name
+		return "post:?" // a post that shows no label of the world (nameless, or not of this world)
 	case *pub.Actor:
 		name := StripSGR(x.Name())
 		for _, m := range labelRe.FindAllString(name, -1) {
